@@ -108,3 +108,38 @@ End Symplectic.
 Print Assumptions C07_gauss_symplectic_rotation.
 Print Assumptions C07_gauss_symplectic_squeeze.
 Print Assumptions C07_gauss_symplectic_beamsplitter.
+
+(* GaussianModes.apply_u (PassiveChannel on the Gaussian backend; model regenerated from the source each run, Gen/GaussMat.v):
+   N <- conj(U) N U^T, M <- U M U^T, mean <- U mean keep "N Hermitian with real diagonal, M symmetric" for EVERY matrix U, and
+   conserve the total mean photon number whenever the columns of U are orthonormal (any register size). *)
+From Coq Require Import Lia.
+From SFV Require Import Base.MatOps Gen.GaussMat C07.GaussPassive.
+Section Passive.
+Variable K : Type.
+Variables (k0 k1 : K) (kadd kmul ksub : K -> K -> K) (kopp : K -> K).
+Hypothesis Kring : ring_theory k0 k1 kadd kmul ksub kopp (@eq K).
+Notation NK := (GaussPhysical.NK K k0 k1 kadd kmul ksub kopp).
+Notation wf := (GaussPhysical.wf K k0 k1 kadd kmul ksub kopp).
+Notation photons := (GaussPhysical.photons K kadd kmul).
+Notation sumn := (GaussPhysical.sumn K k0 kadd).
+Theorem C07_gauss_hermitian_apply_u : forall (U : mat (K:=K)) (s : st K), wf s -> wf (apply_u NK U s).
+Proof. exact (apply_u_wf K k0 k1 kadd kmul ksub kopp Kring). Qed.
+Theorem C07_passive_photon_number_apply_u : forall (U : mat (K:=K)) (s : st K),
+  (forall k l, k < nlen s -> l < nlen s ->
+     Csum NK (nlen s) (fun i => Cmul NK (Cconj NK (U i k)) (U i l)) = (if Nat.eqb k l then C1 NK else C0 NK)) ->
+  sumn (nlen s) (photons (apply_u NK U s)) = sumn (nlen s) (photons s).
+Proof. exact (apply_u_photons K k0 k1 kadd kmul ksub kopp Kring). Qed.
+End Passive.
+Print Assumptions C07_gauss_hermitian_apply_u.
+Print Assumptions C07_passive_photon_number_apply_u.
+(* the orthonormality hypothesis is satisfiable by a matrix other than the identity: the swap of modes 0 and 1 *)
+Example C07_swap_orthonormal :
+  let U : mat (K:=Qc) := fun i k => if Nat.eqb (i + k) 1 then mkC 1%Qc 0%Qc else if Nat.eqb i k && Nat.ltb 1 i then mkC 1%Qc 0%Qc else mkC 0%Qc 0%Qc in
+  forall k l, k < 3 -> l < 3 ->
+    Csum (GaussPhysical.NK Qc 0%Qc 1%Qc Qcplus Qcmult Qcminus Qcopp) 3
+      (fun i => Cmul (GaussPhysical.NK Qc 0%Qc 1%Qc Qcplus Qcmult Qcminus Qcopp) (Cconj (GaussPhysical.NK Qc 0%Qc 1%Qc Qcplus Qcmult Qcminus Qcopp) (U i k)) (U i l))
+    = (if Nat.eqb k l then C1 (GaussPhysical.NK Qc 0%Qc 1%Qc Qcplus Qcmult Qcminus Qcopp) else C0 (GaussPhysical.NK Qc 0%Qc 1%Qc Qcplus Qcmult Qcminus Qcopp)).
+Proof.
+  intros U k l Hk Hl.
+  destruct k as [|[|[|k]]]; [| | |lia]; (destruct l as [|[|[|l]]]; [| | |lia]); apply Ceq; apply Qc_is_canon; vm_compute; reflexivity.
+Qed.
